@@ -860,14 +860,35 @@ class Facts:
         return out
 
     def main_body(self, path):
-        """For an `async fn`: the coroutine that holds the user code (through #[instrument]
-        wrappers: the largest coroutine in the family); for a plain fn: the fn body itself."""
+        """For an `async fn`: the coroutine that holds the user code, looking through
+        `#[tracing::instrument]` (which wraps the body in one more `async move` block passed to
+        `Instrument::instrument`); for a plain fn: the fn body itself."""
         fam = self.family(path)
-        f = self.fns.get(path)
-        cor = [b for b in fam if b.kind == "coroutine"]
-        if fam[0].n <= 6 and cor:
-            return max(cor, key=lambda b: b.n)
-        return fam[0]
+        root = fam[0]
+        kids = [b for b in self.children.get((root.crate, root.dp), []) if b.kind == "coroutine"]
+        if root.n > 8 or not kids:
+            return root
+        cur = kids[0]
+        for _ in range(4):
+            nxt = None
+            for bb, t in cur.calls():
+                if (callee(t) or "").endswith("Instrument::instrument") and t["a"]:
+                    for o in cur.origins(t["a"][0]):
+                        if o.kind == "agg" and o.detail[2] == "coroutine":
+                            dp = cur.stmts(o.detail[0])[o.detail[1]]["rv"].get("dp")
+                            nxt = self.by_dp.get((cur.crate, dp))
+            if nxt is None:
+                break
+            # only a pure wrapper is looked through: it awaits nothing but the instrumented block
+            pure = True
+            for a in cur.awaits():
+                ff = (a.get("fut_fn") or "") + " " + a.get("fut_ty", "")
+                if "Instrumented" not in ff and strip_generics(nxt.path) not in strip_generics(ff) and nxt.path not in ff:
+                    pure = False
+            if not pure:
+                break
+            cur = nxt
+        return cur
 
     def bodies_matching(self, regex):
         r = re.compile(regex)
